@@ -145,7 +145,7 @@ func (c *Ctx) Violate(sub, sig, what string, cas interface{}) {
 	if c.sigSeen[sig] > 2 || len(c.R.Violations) >= 64 {
 		return
 	}
-	raw, err := json.Marshal(cas)
+	raw, err := MarshalCase(cas)
 	if err != nil {
 		raw, _ = json.Marshal(fmt.Sprintf("unmarshalable case: %v", err))
 	}
